@@ -65,6 +65,8 @@ def _explore_chunk(obl, prefix, model, budget_paths, budget_s, sample_every):
               maxdepth=0, decisions=0)
     t0 = time.time()
     sol = core.solver()
+    sol.sample_every = 997 if budget_paths > 50 else 53
+    sol.samples = []
     n0 = (sol.nchecks, sol.nsat, sol.nunsat, sol.nunknown, sol.time)
     while stack:
         if st['paths'] >= budget_paths or time.time() - t0 > budget_s:
@@ -135,6 +137,8 @@ def _explore_chunk(obl, prefix, model, budget_paths, budget_s, sample_every):
                 core.CTX = None; T.BIND = None; T.BOUNDS = None; T.DOM = None
     st['solver'] = (sol.nchecks - n0[0], sol.nsat - n0[1], sol.nunsat - n0[2], sol.nunknown - n0[3], sol.time - n0[4])
     st['leftover'] = stack
+    st['smt'] = sol.samples[:2]
+    sol.samples = []
     st['wall'] = time.time() - t0
     if len(T._TABLE) > 400000:
         T.reset_table(); sol.reset()
@@ -180,7 +184,7 @@ def explore_all(obls, nproc=NPROC, deadline=None, log=None, sample_target=60):
     procs = [ctx.Process(target=_worker, args=(obls, tasks, results, seed), daemon=True) for _ in range(nproc)]
     for p in procs:
         p.start()
-    agg = [dict(paths=0, ok=0, aborted=0, errors=[], labels={}, violations={}, nviol=0, samples=[], maxdepth=0,
+    agg = [dict(smt=[], paths=0, ok=0, aborted=0, errors=[], labels={}, violations={}, nviol=0, samples=[], maxdepth=0,
                 decisions=0, solver=[0, 0, 0, 0, 0.0], cpu=0.0, truncated=False, fatal=None, t0=None, t1=None)
            for _ in obls]
     pending = deque((oi, [], None) for oi in range(len(obls)))
@@ -237,6 +241,8 @@ def explore_all(obls, nproc=NPROC, deadline=None, log=None, sample_target=60):
                 e['reps'].extend(ent['reps'][:max(0, 3 - len(e['reps']))])
             if len(a['samples']) < 4 * sample_target:
                 a['samples'].extend(st['samples'])
+            if len(a['smt']) < 12:
+                a['smt'].extend(st.get('smt', []))
             for i in range(5):
                 a['solver'][i] += st['solver'][i]
             a['cpu'] += st['wall']
@@ -297,6 +303,39 @@ def native_run(harness_mod, obl_name, vectors, tier, timeout=600):
         sys.stderr.write(p.stderr.decode(errors='replace')[-3000:])
         return None
     return json.loads(p.stdout.decode())
+
+
+# ------------------------------------------------------------------ second opinion
+def cvc5_recheck(samples, per_query_ms=10000):
+    """re-decide sampled queries (pc and negated assertion / branch condition, as SMT-LIB2) with cvc5; -> (agree, disagree, unknown, detail)"""
+    try:
+        import cvc5
+        from cvc5 import InputParser, SymbolManager, InputLanguage
+    except Exception as e:
+        return 0, 0, len(samples), 'cvc5 not importable: %r' % (e,)
+    agree = disagree = unknown = 0
+    detail = ''
+    for verdict, txt in samples:
+        try:
+            slv = cvc5.Solver()
+            slv.setLogic('ALL')
+            slv.setOption('tlimit-per', str(per_query_ms))
+            sm = SymbolManager(slv.getTermManager()) if hasattr(slv, 'getTermManager') else SymbolManager(slv)
+            p = InputParser(slv, sm)
+            p.setStringInput(InputLanguage.SMT_LIB_2_6, txt, 'q')
+            res = None
+            while True:
+                cmd = p.nextCommand()
+                if cmd.isNull(): break
+                out = str(cmd.invoke(slv, sm)).strip()
+                if out in ('sat', 'unsat', 'unknown'): res = out
+            if res == verdict: agree += 1
+            elif res in ('sat', 'unsat'):
+                disagree += 1; detail = 'z3 says %s, cvc5 says %s on:\n%s' % (verdict, res, txt[:1500])
+            else: unknown += 1
+        except Exception as e:
+            unknown += 1; detail = detail or 'cvc5 error: %r' % (e,)
+    return agree, disagree, unknown, detail
 
 
 # ------------------------------------------------------------------ known findings
@@ -412,6 +451,12 @@ def run_property(modname, tier, only=None, log=print):
                             solver_queries=a['solver'][0], sat=a['solver'][1], unsat=a['solver'][2], unknown=a['solver'][3],
                             solver_s=round(a['solver'][4], 2), cpu_s=round(a['cpu'], 1), wall_s=round(wall, 1),
                             labels=a['labels'], inconclusive_paths=a.get('nerrors', 0), truncated=a['truncated']))
+    smt_all = [q for a in agg for q in a['smt'][:(3 if tier == 'quick' else 12)]]
+    if len(smt_all) > (40 if tier == 'quick' else 200):
+        smt_all = random.Random(seed).sample(smt_all, 40 if tier == 'quick' else 200)
+    cv_agree, cv_dis, cv_unk, cv_detail = cvc5_recheck(smt_all)
+    if cv_dis:
+        inconclusive.append('second opinion: cvc5 disagrees with z3 on %d of %d sampled queries: %s' % (cv_dis, len(smt_all), cv_detail))
     for name, s, out in val_fail[:3]:
         inconclusive.append('%s: model validation failed: predicted labels=%s obs=%s, native run gave %s (inputs %r)' % (
             name, s['labels'], s['observations'], {k: out[k] for k in ('status', 'labels', 'observations', 'exc', 'failed')}, s['inputs']))
@@ -436,6 +481,7 @@ def run_property(modname, tier, only=None, log=print):
         solver_s=round(tot('solver_s'), 2),
         states=tot('completed'), transitions=tot('decisions'),
         traces_validated_against_impl=validated,
+        second_opinion=dict(solver='cvc5', queries_rechecked=len(smt_all), agree=cv_agree, disagree=cv_dis, unknown_or_timeout=cv_unk),
         samples=samples_out[:12] or [dict(note='no completed path')],
         outside_the_claim=getattr(mod, 'OUT', ''),
         known_findings=[dict(cls=k, description=d, paths=n, witness=w) for k, d, n, w in known_hits],
@@ -460,6 +506,6 @@ def run_property(modname, tier, only=None, log=print):
         for x in inconclusive[:10]:
             print('INCONCLUSIVE: ' + x[:1500])
         return EXIT_HARNESS_ERROR
-    print('%s: holds within the stated bounds (%d paths, %d solver queries, %d native validations, %.0fs)' % (
-        pid, tot('paths'), tot('solver_queries'), validated, time.time() - t_begin))
+    print('%s: holds within the stated bounds (%d paths, %d solver queries, %d native validations, cvc5 agrees on %d/%d sampled queries, %.0fs)' % (
+        pid, tot('paths'), tot('solver_queries'), validated, cv_agree, len(smt_all), time.time() - t_begin))
     return 0
